@@ -62,6 +62,15 @@ func init() {
 		"(time.Time).After":       func(ex *Exec, c *callCtx) Value { return BoolV{ILt(c.args[1].(TimeV).T, c.args[0].(TimeV).T)} },
 		"(time.Time).Before":      func(ex *Exec, c *callCtx) Value { return BoolV{ILt(c.args[0].(TimeV).T, c.args[1].(TimeV).T)} },
 		"(time.Time).Equal":       func(ex *Exec, c *callCtx) Value { return BoolV{Eq(c.args[0].(TimeV).T, c.args[1].(TimeV).T)} },
+		"(syscall.Errno).Error":   mOpaqueStr("errno"),
+		"(*strings.Builder).WriteString": mBuilderWrite,
+		"(*strings.Builder).WriteByte":   mBuilderWrite,
+		"(*strings.Builder).WriteRune":   mBuilderWrite,
+		"(*strings.Builder).String":      mBuilderString,
+		"(*strings.Builder).Len":         mBuilderLen,
+		"(*strings.Builder).Grow":        func(ex *Exec, c *callCtx) Value { return nil },
+		"(*strings.Builder).Reset":       mBuilderReset,
+		"strings.Repeat":           mRepeat,
 		"sort.Slice":              mSortSlice,
 		"sort.Strings":            mSortStrings,
 
@@ -75,6 +84,7 @@ func init() {
 		ergoPath + ".zzHavoc":   mHavoc,
 		ergoPath + ".zzBytes":   mNondetBytes,
 		ergoPath + ".zzNote":    func(ex *Exec, c *callCtx) Value { return nil },
+		ergoPath + ".zzErrText": func(ex *Exec, c *callCtx) Value { return StrLit("") },
 		ergoPath + ".zzPinRand": func(ex *Exec, c *callCtx) Value { return nil },
 		ergoPath + ".zzReplayFrom": mReplayFrom,
 		ergoPath + ".deriveTitleAndBodyFromLegacy": func(ex *Exec, c *callCtx) Value {
@@ -84,6 +94,10 @@ func init() {
 		ergoPath + ".shortID":   mShortID,
 		ergoPath + ".newUUID":   mNewUUID,
 		ergoPath + ".debugf":    func(ex *Exec, c *callCtx) Value { return nil },
+		ergoPath + ".printPruneSummary": func(ex *Exec, c *callCtx) Value {
+			ex.recordOutput(c, "stdout", "text", nil)
+			return nil
+		},
 	}
 }
 
@@ -943,4 +957,89 @@ func mReplayFrom(ex *Exec, c *callCtx) Value {
 	res := ex.callFunction(fn, []Value{c.args[1]}, nil, c.guard, c.pos)
 	c.fr.guard = saved
 	return res
+}
+
+// ---- strings.Builder: the accumulated string is kept beside the Builder object ----
+
+var builderAcc = map[*Object]Value{}
+
+func builderObj(v Value) *Object {
+	r := v.(RefV)
+	if len(r.Alts) != 1 {
+		panic(unsupported("strings.Builder receiver union"))
+	}
+	return r.Alts[0].Tgt.(AddrT).Obj
+}
+
+func mBuilderWrite(ex *Exec, c *callCtx) Value {
+	o := builderObj(c.args[0])
+	acc, ok := builderAcc[o]
+	if !ok {
+		acc = StrLit("")
+	}
+	var piece Value
+	switch x := c.args[1].(type) {
+	case StrV, BStrV:
+		piece = x
+	case IntV:
+		if x.T.sort.W == 8 {
+			piece = BStrV{Len: BVC(1, 64), B: []*Term{x.T}}
+		} else if x.T.IsConst() {
+			piece = StrLit(string(rune(x.T.SVal())))
+		} else {
+			panic(unsupported("Builder.WriteRune of symbolic rune"))
+		}
+	}
+	nw := ex.strBinop(token.ADD, acc, piece)
+	builderAcc[o] = MergeV(c.guard, nw, acc)
+	if c.fn.Signature.Results().Len() == 2 {
+		return TupleV{E: []Value{IntV{ex.strLen(piece), true}, NilRef()}}
+	}
+	return NilRef()
+}
+
+func mBuilderString(ex *Exec, c *callCtx) Value {
+	if acc, ok := builderAcc[builderObj(c.args[0])]; ok {
+		return acc
+	}
+	return StrLit("")
+}
+
+func mBuilderLen(ex *Exec, c *callCtx) Value {
+	if acc, ok := builderAcc[builderObj(c.args[0])]; ok {
+		return IntV{ex.strLen(acc), true}
+	}
+	return IntV{BVC(0, 64), true}
+}
+
+func mBuilderReset(ex *Exec, c *callCtx) Value {
+	o := builderObj(c.args[0])
+	if acc, ok := builderAcc[o]; ok {
+		builderAcc[o] = MergeV(c.guard, StrLit(""), acc)
+	}
+	return nil
+}
+
+func mRepeat(ex *Exec, c *callCtx) Value {
+	s, sok := litOf(c.args[0])
+	n := c.args[1].(IntV)
+	if sok && n.T.IsConst() {
+		return StrLit(strings.Repeat(s, int(n.T.SVal())))
+	}
+	if sok && len(s) == 1 {
+		// repeat of a single byte with symbolic count: byte-mode string
+		max := 0
+		if ub, ok := termUpper(n.T); ok {
+			max = ub
+		} else {
+			max = 64
+		}
+		bs := BStrV{Len: Ite(BVCmp("bvslt", n.T, BVC(0, 64)), BVC(0, 64), n.T)}
+		for i := 0; i < max; i++ {
+			bs.B = append(bs.B, BVC(int64(s[0]), 8))
+		}
+		ex.notes = append(ex.notes, "strings.Repeat with symbolic count modelled up to 64")
+		return bs
+	}
+	return mOpaqueStr("repeat")(ex, c)
 }
